@@ -34,6 +34,7 @@ package datamodeldiagram
 //@   loop 0 invariant [numbers-below-size] v.Symbols != nil && forallstr(k, in(k, v.Symbols) ==> v.Symbols[k] != nil && v.Symbols[k].Order < len(v.Symbols))
 //@   loop 1 invariant [numbers-below-size] v.Symbols != nil && forallstr(k, in(k, v.Symbols) ==> v.Symbols[k] != nil && v.Symbols[k].Order < len(v.Symbols))
 //@   assert @mapupdate:map[string]datamodeldiagram.RelationshipParam [one-more-line-per-reference] (in(mapkey, maptarget) ==> stored.Count == maptarget[mapkey].Count + 1 && stored.Entity == maptarget[mapkey].Entity && stored.Relationship == maptarget[mapkey].Relationship) && (!in(mapkey, maptarget) ==> stored.Count == 1 && stored.Entity == mapkey)
+//@   assert @call:datamodeldiagram.(*DataModelView).UniqueVarForAppName [alias-key-has-all-name-parts] len(arg1) == len(entityTokens) && forall(j, 0, len(entityTokens) - 1, arg1[j] == entityTokens[j])
 //@   ghostclear @iter:1 counted
 //@   ghostset @mapupdate:map[string]datamodeldiagram.RelationshipParam counted
 //@   loop 1 step [every-reference-is-counted] attrType.GetTypeRef() != nil ==> ghost("counted")
